@@ -110,14 +110,45 @@ class Acc:
                 self.extra.setdefault(key, value)
 
 
+def _production_frame(tb):
+    """(file, function) when the exception was raised by the code under test
+    and escaped to the harness that called it, else None."""
+    frames = traceback.extract_tb(tb)
+    if not frames:
+        return None
+    last = frames[-1]
+    repo = os.path.realpath(env.REPO) + os.sep
+    if os.path.realpath(last.filename).startswith(repo):
+        return os.path.relpath(os.path.realpath(last.filename), repo), last.name
+    return None
+
+
 def _shard_entry(args):
     module_name, spec = args
     try:
         module = importlib.import_module(module_name)
         acc = module.run_shard(spec)
         return ('ok', acc.dump())
-    except BaseException:   # noqa: harness faults are reported, never hidden
-        return ('error', traceback.format_exc())
+    except BaseException as ex:     # noqa: faults are reported, never hidden
+        text = traceback.format_exc()
+        where = None
+        if isinstance(ex, Exception) and not isinstance(ex, HarnessError):
+            where = _production_frame(sys.exc_info()[2])
+        if where is not None:
+            # Not a fault of the harness: an entry point of the code under
+            # test (set-up, discovery, a controller call) raised to its
+            # caller, where no exception can come from on the unchanged
+            # tree. Whatever the property, it cannot hold for a run that
+            # never took place.
+            acc = Acc()
+            acc.fail('production-raised:{}@{}:{}'.format(
+                type(ex).__name__, where[0], where[1]),
+                'the code under test raised out of {} ({}): {!r}'.format(
+                    where[1], where[0], ex),
+                {'kind': 'production-raised', 'spec': spec,
+                 'traceback': text[-1500:]})
+            return ('ok', acc.dump())
+        return ('error', text)
 
 
 def run_shards(module_name, specs):
@@ -188,7 +219,14 @@ def run_replay_file(module, path):
         path = os.path.join(env.VERIF, path)
     with open(path) as src:
         data = json.load(src)
-    return module.replay(data['case']), data
+    case = data['case']
+    if isinstance(case, dict) and case.get('kind') == 'production-raised':
+        status, payload = _shard_entry((module.__name__, case['spec']))
+        if status != 'ok':
+            raise HarnessError('shard failed:\n' + payload)
+        return [(f['sig'], f['what']) for f in payload['failures'].values()
+                if f['sig'].startswith('production-raised')], data
+    return module.replay(case), data
 
 
 def main(check_id, tier, replay_path=None):
@@ -223,7 +261,17 @@ def main(check_id, tier, replay_path=None):
         path = finding.get('replay')
         if not path:
             continue
-        failures, _ = run_replay_file(module, path)
+        try:
+            failures, _ = run_replay_file(module, path)
+        except HarnessError:
+            raise
+        except Exception as ex:     # noqa
+            where = _production_frame(sys.exc_info()[2])
+            if where is None:
+                raise
+            failures = [('production-raised',
+                         'the code under test raised out of {} ({}): {!r}'
+                         .format(where[1], where[0], ex))]
         replayed += 1
         if status == 'open':
             if failures:
@@ -250,7 +298,8 @@ def main(check_id, tier, replay_path=None):
         if match is not None:
             known_hits[match['id']] += 1 + merged.excluded.get(sig, 0)
             continue
-        if hasattr(module, 'shrink') and not os.environ.get('VERIF_NOSHRINK'):
+        if hasattr(module, 'shrink') and not os.environ.get(
+                'VERIF_NOSHRINK') and not sig.startswith('production-raised'):
             try:
                 failure = module.shrink(failure) or failure
             except Exception:   # shrinking is best effort
@@ -301,12 +350,15 @@ def main(check_id, tier, replay_path=None):
                                 len(merged.nontrivial), merged.discarded,
                                 wall))
     minimum = getattr(module, 'MIN_LABELS', {}).get(tier, {})
+    if violations:
+        # what was found stands, however little else was generated
+        minimum = {}
     for label, count in minimum.items():
         if merged.labels.get(label, 0) < count:
             raise HarnessError(
                 'generator too weak: label {!r} seen {} times, need {}'
                 .format(label, merged.labels.get(label, 0), count))
-    if merged.evaluations and merged.discarded > 0.25 * (
+    if not violations and merged.evaluations and merged.discarded > 0.25 * (
             merged.evaluations + merged.discarded):
         raise HarnessError('discard rate too high: {} of {}'.format(
             merged.discarded, merged.evaluations + merged.discarded))
